@@ -21,11 +21,9 @@ or satisfies `HInv`.  Programs must be `ProgOK` (object ids < 100; `local.p0 wai
 only with names other than the engine's `delete` / `remove` events); `ProgOK` is decidable and every generator
 family of tools/vlib/schedgen.py satisfies it.
 
-**Not covered** (excluded from `HostOp`): `save` / `load`.  `load` writes a snapshot taken earlier into
-the present context; objects deleted between the two would leave waiters registered on a dead source,
-so `Inv` for the loaded state needs a side condition about the host's objects that the model does not
-track (more in `notes/schedtop-design.md`).  `reachable_inv_partial` carries the suffix for that reason; the
-machine-level sections of `Props/C06, C07, C13` say "without `save`/`load`" in their headers.
+`save` / `load` are not `HostOp`s (they involve the snapshot held by the host); they are added, with their side
+conditions, in `Sched/MachineHostSL.lean` (`ReachableSL`, `reachableSL_hinv3`, `reachableSL_inv`).
+`reachable_inv_partial` keeps its name: it is the statement for histories without them.
 -/
 namespace Morfuse.Sched
 open State
